@@ -1,9 +1,7 @@
 (** The theorems of Stats/Proofs.v for the column kinds of parquet-go: every
     numeric kind (boolean, signed and unsigned 32/64-bit integers, FLOAT,
     DOUBLE, INT96) and the byte kinds BYTE_ARRAY, FIXED_LEN_BYTE_ARRAY and
-    128-bit big-endian.  Binary DECIMAL columns are modelled (Stats/Order.v,
-    Stats/Model.v) but their comparison is not proved to be a total preorder;
-    they are covered by the alignment and count theorems only. *)
+    128-bit big-endian.  Binary DECIMAL columns are in Stats/Decimal.v. *)
 From Coq Require Import List NArith ZArith Bool Arith Lia.
 From Coq Require Import ZifyN ZifyNat ZifyBool.
 From PQ Require Import Base.Bytes Search.Model Search.Proofs
